@@ -1133,8 +1133,8 @@ def _strs(l):
     return common.clist([common.cstr(x) for x in l]) if l else "(@nil str)"
 
 
-def session_shard(ms):
-    """Coq source: the combined session model against every recorded cut of one ruleset."""
+def session_shard(ms, cases=None):
+    """Coq source: the combined session model against every recorded cut of one ruleset (or against the given ones of them)."""
     import impl_next
     U, om = ms["U"], ms["om"]
     M = U["model"]
@@ -1165,7 +1165,7 @@ def session_shard(ms):
             defs.append("Definition %s : %s := %s." % (names[lit], typ, lit))
         return names[lit]
     rows = []
-    for c in ms["cases"]:
+    for c in (ms["cases"] if cases is None else cases):
         o1 = c["order1"]
         order1 = "(firstn %d%%nat uorder)" % len(o1) if o1 == uorder[:len(o1)] else named("o1", "list tobs", _obs_list(vm, o1))
         s1 = c["out1"]
@@ -1278,15 +1278,28 @@ def run(ctx):
             else:
                 corr.append(("session-two-cycle:" + name, True, ""))
     # ---- correspondence: the combined session model (queue + level + save + restore) on the same histories
-    ms_shards = [("m%04d" % i, session_shard(ms)) for i, ms in enumerate(ms_rulesets) if ms["cases"]]
-    ms_index = [ms for ms in ms_rulesets if ms["cases"]]
+    # (one shard per ruleset; the model replays the whole session per cut, quadratic in the number of pre-terminals of the run:
+    # the cuts of a ruleset with a very long run are spread over several shards that Coq checks side by side - same cuts, same checks)
+    ms_shards, ms_of = [], {}
+    for i, ms in enumerate(ms_rulesets):
+        if not ms["cases"]:
+            continue
+        pops = sum(1 for q in ms["U"]["pops"] if q is not None)
+        per = max(1, int(6.0e5 / max(1, pops * pops)))          # about 20 s of vm_compute per shard (18 s per cut at 730 pops)
+        chunks = [ms["cases"][k:k + per] for k in range(0, len(ms["cases"]), per)]
+        for ci, chunk in enumerate(chunks):
+            name = "m%04d" % i + ("" if len(chunks) == 1 else "_%02d" % ci)
+            ms_shards.append((name, session_shard(ms, chunk)))
+            ms_of[name] = (ms, chunk)
+        if len(chunks) > 1:
+            dist["coq_session_rulesets_split_over_shards"] += 1
     if ms_shards:
         for name, idx, log in common.run_case_shards("C15c", ms_shards):
-            ms = ms_index[[n for n, _ in ms_shards].index(name)]
+            ms, chunk = ms_of[name]
             if idx is None:
                 corr.append(("session:" + name, False, log[-1200:]))
             elif idx:
-                c = ms["cases"][idx[0]]
+                c = chunk[idx[0]]
                 corr.append(("session:" + name, False, "combined session model (MarkovSession.v) and the real sessions differ on cuts %s of "
                              "ruleset %s; first: %d pre-terminals before the level, quit after its guess %d (%s): interrupted output / "
                              "saved max_probability, omen_guess_number, .omn / resumed output or pop sequence; replay %s"
